@@ -175,6 +175,11 @@ pub fn builder_plans(ctx: &mut Ctx, opts: &RunOpts) {
         plans.push(vec![BEntry::Ip4([9, 9, 9, 9]), BEntry::Add(k("pad"), Val::B(vec![0x11; pad]))]);
         plans.push(vec![BEntry::Seq(65_535), BEntry::Add(k("pad"), Val::B(vec![0x11; pad]))]);
     }
+    // the same size sweep with keys whose bytes are >= 0x80 and with several one-byte keys
+    for pad in (140..=205usize).step_by(1) {
+        plans.push(vec![BEntry::Add("ключ".as_bytes().to_vec(), Val::B(vec![0x11; pad]))]);
+        plans.push(vec![BEntry::Add(k("a"), Val::U8(1)), BEntry::Add(k("b"), Val::U8(2)), BEntry::Add(vec![0x05], Val::U8(3)), BEntry::Add(vec![0xfe, 0xff, 0x80, 0x81], Val::B(vec![0x11; pad]))]);
+    }
     let mut n = 0u64;
     for (kt, scheme) in kinds() {
         for p in &plans {
@@ -501,7 +506,7 @@ pub fn c09(ctx: &mut Ctx) {
         Op::SetSeq(u64::MAX),
         Op::SetSeq(0x1_0000_0000),
     ];
-    let seqs: Vec<u64> = if q { vec![1, 127, 255, 65_535, u64::MAX - 1] } else { vec![0, 1, 126, 127, 255, 65_535, 0xff_ffff, 0xffff_ffff, 0xffff_ffff_ffff, u64::MAX - 1] };
+    let seqs: Vec<u64> = if q { vec![0, 1, 127, 255, 65_535, u64::MAX - 1] } else { vec![0, 1, 126, 127, 255, 65_535, 0xff_ffff, 0xffff_ffff, 0xffff_ffff_ffff, u64::MAX - 1] };
     let mut n = 0u64;
     for (kt, scheme) in kinds() {
         let key = own_ref(scheme, OWN);
@@ -587,6 +592,27 @@ pub fn c09(ctx: &mut Ctx) {
                 ctx.count("c09.minimal-record-cases");
                 let h = mk_history(scheme, OWN, OTHER, &Init::Decode(rec.bytes()), vec![Step { op, signer: Signer::Own }]);
                 run_hist_kt(ctx, kt, false, &h, &opts);
+            }
+        }
+    }
+    // CombinedKey records near the limit re-keyed ACROSS schemes (adds a second public-key entry): the bound holds
+    if cfg!(feature = "ed") {
+        for scheme in [Scheme::Ed, Scheme::Secp] {
+            let key = own_ref(scheme, OWN);
+            for target in (250..=300usize).step_by(2) {
+                n += 1;
+                if !ctx.mine(n) {
+                    continue;
+                }
+                let mut rec = Rec::minimal(key, 70_000);
+                rec.map.insert(b"x".to_vec(), Item::S(vec![1]));
+                if let Some(r2) = gen::pad_to(&rec, b"pad", target) {
+                    for op in [Op::SetSeq(5), Op::SetSeq(70_000), Op::SetUdp4(9), Op::RemoveKey(k("x")), Op::SetPublicKey(PkArg::OfSigner)] {
+                        let h = mk_history(scheme, OWN, OTHER, &Init::Decode(r2.bytes()), vec![Step { op, signer: Signer::Alt }]);
+                        run_hist_kt(ctx, KT::Comb, false, &h, &opts);
+                        ctx.count("c09.cross-scheme-cases");
+                    }
+                }
             }
         }
     }
